@@ -27,8 +27,14 @@ func paramSets(tier string, seed int64) []pcfg {
 		}
 		out = append(out, pcfg{Name: name, Scheme: scheme, LogN: logN, Q: q, P: p, T: t, LogScale: logScale, Pow2: pow2, Ring: ringT, NTT: true})
 	}
+	// quick tier: the whole method x pattern table at one parameter set per scheme (plus the boundary
+	// sets that select other code paths: no auxiliary modulus with a base-2 decomposition, a single
+	// auxiliary prime, conjugate-invariant ring, coefficient-domain parameters)
 	add("bgvA", "bgv", 6, []int{45, 40, 40, 40}, []int{50, 50}, 65537, 0, 0, "")
 	add("bfvA", "bfv", 6, []int{45, 40, 40, 40}, []int{50, 50}, 65537, 0, 0, "")
+	add("bgvC", "bgv", 5, []int{50, 40, 40}, nil, 65537, 0, 12, "")
+	add("ckksA", "ckks", 6, []int{55, 45, 45, 45}, []int{55, 55}, 0, 45, 0, "")
+	add("ckksCI", "ckks", 6, []int{55, 45, 45, 45}, []int{55}, 0, 45, 0, "ci")
 	add("ckksCircA", "ckks-circ", 6, []int{55, 45, 45, 45}, []int{55, 55}, 0, 45, 0, "")
 	add("bgvCircA", "bgv-circ", 6, []int{45, 40, 40, 40}, []int{50, 50}, 65537, 0, 0, "")
 	add("mpA", "mp", 5, []int{50, 40, 40}, []int{50, 50}, 0, 0, 0, "")
@@ -43,25 +49,42 @@ func paramSets(tier string, seed int64) []pcfg {
 	add("ckksEncCI", "ckks-enc", 6, []int{55, 45, 45}, []int{55}, 0, 45, 0, "ci")
 	add("encdecA", "encdec", 5, []int{50, 40, 40}, []int{50, 50}, 0, 0, 0, "")
 	add("encdecNoP", "encdec", 5, []int{50, 40, 40}, nil, 0, 0, 11, "")
+	add("ringBE", "ringbe", 5, []int{55, 45, 40}, []int{50, 61}, 0, 0, 0, "")
 	add("ringA", "ring", 5, []int{55, 45, 40, 33}, nil, 0, 0, 0, "")
+	add("ringCI", "ring", 5, []int{50, 40, 40}, nil, 0, 0, 0, "ci")
 	add("rlweA", "rlwe", 6, []int{50, 40, 40, 40}, []int{50, 50}, 0, 0, 0, "")
 	add("rlweCoef", "rlwe", 5, []int{50, 40, 40}, []int{50}, 0, 0, 0, "")
 	out[len(out)-1].NTT = false
-	add("ckksA", "ckks", 6, []int{55, 45, 45, 45}, []int{55, 55}, 0, 45, 0, "")
+	add("rlweNoP", "rlwe", 5, []int{50, 40, 40}, nil, 0, 0, 10, "")
+	add("rlweP1w", "rlwe", 6, []int{55, 45, 45}, []int{56}, 0, 0, 14, "")
 	if tier == "thorough" {
+		// six parameter sets per scheme: other ring degrees, prime sizes and counts
+		add("bgvB", "bgv", 7, []int{55, 55, 55}, []int{56}, 65537, 0, 0, "")
+		add("bgvD", "bgv", 8, []int{60, 45, 45, 45, 45}, []int{61, 61, 61}, 786433, 0, 0, "")
+		add("bgvE", "bgv", 4, []int{36, 30, 30}, []int{40}, 97, 0, 0, "")
+		add("bgvF", "bgv", 9, []int{50, 50, 50}, []int{55, 55}, 65537, 0, 0, "")
+		add("bfvB", "bfv", 7, []int{55, 55, 55}, []int{56}, 65537, 0, 0, "")
+		add("bfvC", "bfv", 5, []int{50, 40, 40}, nil, 65537, 0, 12, "")
+		add("bfvD", "bfv", 8, []int{60, 45, 45, 45, 45}, []int{61, 61, 61}, 786433, 0, 0, "")
+		add("ckksB", "ckks", 7, []int{60, 50, 50}, []int{60}, 0, 50, 0, "")
+		add("ckksC", "ckks", 5, []int{50, 40, 40}, nil, 0, 40, 12, "")
+		add("ckksD", "ckks", 8, []int{60, 40, 40, 40, 40, 40}, []int{61, 61}, 0, 40, 0, "")
+		add("ckksE", "ckks", 9, []int{55, 45, 45, 45}, []int{55, 55}, 0, 45, 0, "")
+		add("ckksF", "ckks", 4, []int{50, 35, 35}, []int{50}, 0, 35, 0, "")
+		add("ckksCircB", "ckks-circ", 7, []int{60, 50, 50, 50}, []int{60}, 0, 50, 0, "")
+		add("bgvCircB", "bgv-circ", 7, []int{55, 55, 55, 55}, []int{56}, 65537, 0, 0, "")
+		add("rlweCI", "rlwe", 6, []int{50, 40, 40}, []int{50}, 0, 0, 0, "ci")
+		add("rlweB", "rlwe", 8, []int{60, 60, 60}, []int{61, 61, 61}, 0, 0, 0, "")
+		add("rlweC", "rlwe", 4, []int{40, 30}, []int{40}, 0, 0, 0, "")
 		add("encdecCoef", "encdec", 5, []int{50, 40, 40}, []int{50}, 0, 0, 0, "")
 		out[len(out)-1].NTT = false
+		add("encdecB", "encdec", 8, []int{60, 50, 50}, []int{61}, 0, 0, 0, "")
 		add("ringB", "ring", 7, []int{60, 60, 30}, nil, 0, 0, 0, "")
-		add("ringCI", "ring", 5, []int{50, 40, 40}, nil, 0, 0, 0, "ci")
-		add("rlweNoP", "rlwe", 5, []int{50, 40, 40}, nil, 0, 0, 10, "")
-		add("rlweP1w", "rlwe", 6, []int{55, 45, 45}, []int{56}, 0, 0, 14, "")
-		add("rlweCI", "rlwe", 6, []int{50, 40, 40}, []int{50}, 0, 0, 0, "ci")
-		add("ckksB", "ckks", 7, []int{60, 50, 50}, []int{60}, 0, 50, 0, "")
-		add("ckksCI", "ckks", 6, []int{55, 45, 45, 45}, []int{55}, 0, 45, 0, "ci")
-		add("ckksC", "ckks", 5, []int{50, 40, 40}, nil, 0, 40, 12, "")
-		add("bgvB", "bgv", 7, []int{55, 55, 55}, []int{56}, 65537, 0, 0, "")
-		add("bgvC", "bgv", 5, []int{50, 40, 40}, nil, 65537, 0, 12, "")
-		add("bfvB", "bfv", 7, []int{55, 55, 55}, []int{56}, 65537, 0, 0, "")
+		add("ringC", "ring", 4, []int{61, 20, 45, 33, 55}, nil, 0, 0, 0, "")
+		add("ringBE2", "ringbe", 7, []int{60, 60, 60, 60}, []int{61, 61, 61}, 0, 0, 0, "")
+		add("mpB", "mp", 7, []int{55, 55, 55}, []int{56}, 0, 0, 0, "")
+		add("bgvEncB", "bgv-enc", 8, []int{55, 55, 55}, []int{56}, 65537, 0, 0, "")
+		add("ckksEncB", "ckks-enc", 8, []int{60, 50, 50}, []int{60}, 0, 50, 0, "")
 	}
 	return out
 }
@@ -93,6 +116,8 @@ func cases(tier string, seed int64) []eng.Case {
 				out = append(out, eng.Case{ID: ps.Name + "/lintrans/" + k, Sig: "C09|lintrans.Evaluator", Desc: ps, Run: func(c *eng.Ctx) { runBGVLinTrans(c, ps, k) }})
 			}
 			out = append(out, eng.Case{ID: ps.Name + "/polynomial", Sig: "C09|polynomial.Evaluator", Desc: ps, Run: func(c *eng.Ctx) { runBGVPoly(c, ps) }})
+		case "ringbe":
+			out = append(out, eng.Case{ID: ps.Name + "/ring.BasisExtender", Sig: "C09|ring.BasisExtender", Desc: ps, Run: func(c *eng.Ctx) { runBasisExtender(c, ps) }})
 		case "rgsw":
 			out = append(out, eng.Case{ID: ps.Name + "/rgsw", Sig: "C09|rgsw", Desc: ps, Run: func(c *eng.Ctx) { runRGSW(c, ps) }})
 		case "mp":
@@ -134,7 +159,17 @@ func cases(tier string, seed int64) []eng.Case {
 func init() {
 	eng.Register(&eng.Monitor{
 		ID: "C09", Level: "exploration",
-		Rule:  "TODO",
+		Rule: "cases = (parameter set, public method or method group); a parameter set fixes scheme, ring type, logN, Q/P primes (drawn per seed), base-2 decomposition. Inside a case every row of the method x pattern table is executed on the real code: " +
+			"patterns = fresh (distinct objects, freshly allocated output, clean evaluator; every non-output argument deep-snapshotted by reflection before/after, bit for bit incl. unexported fields, big.Int/big.Float contents and metadata), out=op0, out=op1, op0=op1, op0=op1=out (resp. out=in, p3=p1, p3=p2, p1=p2, out[k]=in, out=share1/2, share1=share2), hist-poison0..2 (all scratch buffers of the evaluator/encoder/encryptor filled with all-ones / random / mixed words, huge big.Int and big.Float values), hist-warm (larger operations run first on the same evaluator), hist-out (output object that held a degree-2 top-level value with other metadata), hist-dirty (both). " +
+			"Oracle: the output of every aliasing / history run must equal the output of the run with distinct fresh objects (canonical residues mod q_i, level, degree after removing identically-zero trailing components, metadata with the scale compared as an exact number); accumulating methods are compared with the run whose accumulator is a distinct copy; randomised operations are repeated under an identically re-seeded crypto/rand. An error returned for an aliased call is accepted, a panic is not. " +
+			"distinct key = (API entry point, pattern, operand kind, scale/level/degree variant, parameter set); non-trivial = any key whose pattern is an aliasing or history pattern, or a fresh-pattern key whose checked argument is a pointer, slice, ciphertext, plaintext, key or share (value scalars such as int / float64 operands in the fresh pattern are trivial).",
 		Cases: cases,
+		Assumptions: []string{
+			"reflection + unsafe deep snapshots see every word reachable from an argument (maps, slices, pointers, big.Int/big.Float internals)",
+			"a mutation of an input that is exactly restored before the call returns is not observable",
+			"documented in-place methods are whitelisted: DropLevel, SetScale, MatchScalesAndLevel (both arguments), FFT/IFFT, accumulators of ...ThenAdd; ring automorphisms are documented as not in-place and only run with distinct polynomials; BFV Rescale is a documented nop",
+			"operand domains are the documented ones (scales with integer or near-1 ratios, plaintext slices no longer than the slot count, levels >= the depth of the operation)",
+			"a panic or error of the plain call with distinct fresh arguments is outside C09 (counted as baseline_panics_not_judged / errors_observed)",
+		},
 	})
 }
